@@ -179,6 +179,9 @@ type Violation struct {
 	DecKinds  []string          `json:"decision_kinds"`
 	Events    []string          `json:"events,omitempty"`
 	KnownID   string            `json:"known_id,omitempty"`
+	// Tier the counterexample was found in: a replay must run the harness in
+	// the same tier (nd.Thorough() changes its shape)
+	Tier string `json:"tier,omitempty"`
 }
 
 func (e engineAbort) isViolation() bool { return e.kind == abortViolation }
